@@ -27,6 +27,7 @@ func c05Universe(kind string) []nBundle {
 	case "plain":
 		// b1: originated here, destination not a neighbour; b2: relayed, came from peer 1, for peer 2's node
 		b1 := nFresh(1, c05Self, far)
+		b1.mode = 'B' // also comes back from the network
 		b2 := nFresh(2, nEid{7, 0}, nEid{3, 1})
 		b2.prev = nP(nEid{2, 0})
 		b2.hop = &[2]int{8, 2}
